@@ -62,9 +62,13 @@ CHECKS = {
    note='Trusted: as C01. No axioms.'),
  'C02': dict(
    design_ref='§6 C02',
-   technique='Coq proofs on a hand model of make_streett_transducer (over translated _controllable_action) + exhaustive truth-table correspondence + closed-loop search',
-   text=('Hand-written Gallina model of make_streett_transducer built on the '
-         'translated _controllable_action/_make_init/solver; proved for '
+   technique='Coq proofs about make_streett_transducer translated from gr1.py on every run (tie T; proved equal to a structured model) + exhaustive truth-table correspondence for the memory layout and refusals + closed-loop search',
+   text=('make_streett_transducer is translated from the current gr1.py '
+         'on every run (like the solver, _controllable_action, _make_init, '
+         'is_realizable) and proved EQUAL, by conversion, to a structured '
+         'Gallina model (rho_1, rho_2, rho_3 named) composed with the '
+         'generated is_realizable/_make_init and the refusal conditions; '
+         'proved for '
          'arbitrary iterates, all modes: every allowed step satisfies the '
          'specified component action under the mode causality rule; Moore '
          'implementations do not depend on next environment values; the goal '
@@ -82,17 +86,22 @@ CHECKS = {
          'rank argument; uses Classical_Prop.classic). All clauses of C02 are '
          'thus proved for the model; the real implementation is additionally '
          'analysed in closed loop (reachability, blocking, fair cycles) on '
-         'every run. The model is tied by comparing the complete truth '
-         'tables of action[impl]/init[impl] with the real construction.'),
-   note=('Trusted: Coq kernel+vm_compute; hand model tied by sampled '
-         'correspondence (tables are exhaustive per game); translator for '
-         'the generated parts; dd by meaning. Axioms: C02_liveness depends on '
+         'every run. What is compared rather than translated is the arena '
+         '(layout of the memory variable in the component valuations): the '
+         'complete truth tables of action[impl]/init[impl] and the refusals '
+         '(AssertionError <-> None) of the real construction are compared '
+         'with the translated one evaluated in Coq.'),
+   note=('Trusted: Coq kernel+vm_compute; py2coq/py2coq_tdc translators '
+         '(fail-closed; automaton book-keeping calls skipped and listed); '
+         'memory layout tied by sampled correspondence (tables exhaustive '
+         'per game); dd by meaning. Axioms: C02_liveness depends on '
          'Classical_Prop.classic (standard library); every other theorem is '
          'closed under the global context.')),
  'C05': dict(
    design_ref='§6 C05',
-   technique='Coq proofs on a hand model of make_rabin_transducer; two machine-checked refutation witnesses (known findings F3, F12); correspondence + closed-loop search',
-   text=('Hand-written Gallina model of make_rabin_transducer over the '
+   technique='Coq proofs about make_rabin_transducer translated from gr1.py on every run (tie T; proved equal to a structured model); two machine-checked refutation witnesses (known findings F3, F12); correspondence + closed-loop search',
+   text=('make_rabin_transducer is translated from the current gr1.py on '
+         'every run and proved equal to a structured Gallina model over the '
          'translated _controllable_action/step/_make_init/solver; proved for '
          'arbitrary iterates: every allowed step satisfies the specified '
          'component action under the mode causality rule; Moore '
